@@ -69,3 +69,47 @@ func WriteJSON(path string, v any) {
 		Fatal("write %s: %v", path, err)
 	}
 }
+
+// ReservePort makes a cross-process reservation of a port number (several checks may run on this machine at the
+// same time): a lock file /tmp/verif-portlocks/<port> holding the owner's pid.  Stale reservations are taken over.
+func ReservePort(p int) bool {
+	dir := "/tmp/verif-portlocks"
+	os.MkdirAll(dir, 0o755)
+	f := fmt.Sprintf("%s/%d", dir, p)
+	for attempt := 0; attempt < 2; attempt++ {
+		fd, err := os.OpenFile(f, os.O_CREATE|os.O_EXCL|os.O_WRONLY, 0o644)
+		if err == nil {
+			fmt.Fprintf(fd, "%d", os.Getpid())
+			fd.Close()
+			reservedMu.Lock()
+			reserved = append(reserved, f)
+			reservedMu.Unlock()
+			return true
+		}
+		b, _ := os.ReadFile(f)
+		var pid int
+		fmt.Sscanf(string(b), "%d", &pid)
+		if pid > 0 {
+			if proc, err := os.FindProcess(pid); err == nil && proc.Signal(syscallZero) == nil {
+				return false // owner alive
+			}
+		}
+		os.Remove(f)
+	}
+	return false
+}
+
+// ReleasePorts removes this process's reservations.
+func ReleasePorts() {
+	reservedMu.Lock()
+	defer reservedMu.Unlock()
+	for _, f := range reserved {
+		os.Remove(f)
+	}
+	reserved = nil
+}
+
+var (
+	reservedMu sync.Mutex
+	reserved   []string
+)
